@@ -161,6 +161,26 @@ func cmdGenTypeInv(args []string) int {
 			fmt.Printf("//@ typeinv %s: %s\n", name, strings.Join(parts, " && "))
 		}
 	}
+	fmt.Println()
+	fmt.Println("// a child slot that holds a node never goes back to nil (checked at every store in the functions under contract)")
+	for _, at := range e.acceptTypes() {
+		name := at.named.Obj().Name()
+		for i := 0; i < at.st.NumFields(); i++ {
+			f := at.st.Field(i)
+			for _, nf := range at.fields {
+				if nf.name != f.Name() || nf.slice || nilable[name+"."+f.Name()] {
+					continue
+				}
+				if isInterface(f.Type()) {
+					fmt.Printf("//@ monotone H.ast.%s.%s.typ\n", name, f.Name())
+				} else {
+					fmt.Printf("//@ monotone H.ast.%s.%s\n", name, f.Name())
+				}
+			}
+		}
+	}
+	fmt.Println("//@ monotone Cell.ast.Node.typ")
+	fmt.Println("//@ monotone Cell.ast.BoolNode.typ")
 	return 0
 }
 
